@@ -30,8 +30,11 @@ Theorem C12_error_class_table c :
 Proof. exact (errclass_table c). Qed.
 Print Assumptions C12_error_class_table.
 
-(* ---- open: same class on all ranks; SUCCESS iff fopen did not fail; a failed open leaves no context, no stream *)
-Theorem C12_open cfg P g am g' cls : 0 < P -> plan_ok (w_plan (g_w g)) ->
+(* ---- open: same class on all ranks; SUCCESS iff fopen did not fail; a failed open leaves no context, no stream.
+        `plan_okn` admits "success with errno noise" (entries (e, NOISE): the call succeeds and leaves errno = e, not counted in
+        w_fail): a successful fopen is reported as SUCCESS WHATEVER errno it leaves, and no stream is left when the open is
+        reported as failed (repair of F-C12j: `retval = (file == NULL) ? errno : 0`) *)
+Theorem C12_open cfg P g am g' cls : 0 < P -> plan_okn (w_plan (g_w g)) ->
   g_open cfg P g am = (g', cls) ->
   agree cls /\ cls <> []
   /\ ((forall x, In x cls -> x = SUCCESS cfg) <-> w_fail (g_w g') = w_fail (g_w g))
@@ -41,6 +44,55 @@ Theorem C12_open cfg P g am g' cls : 0 < P -> plan_ok (w_plan (g_w g)) ->
         g_ctx g' = false /\ g_s0 g' = None /\ w_ledger (g_w g') = w_ledger (g_w g) /\ w_open (g_w g') = w_open (g_w g)).
 Proof. exact (open_spec cfg P g am g' cls). Qed.
 Print Assumptions C12_open.
+
+
+(* regression guard for F-C12j: the line before the repair (`retval = errno`, `g_open_with open_judge_old`) on a fopen that
+   succeeds and leaves errno = ESPIPE (glibc, mode "ab" on a pipe): an error class on both ranks, no context, no handle - and one
+   stream left open; the current code on the same input: SUCCESS *)
+Theorem C12_open_old_judge_refuted :
+  let g := gstate0 (File [1; 2; 3]) plan_noise_fopen in
+  (let '(g', cls) := g_open_with open_judge_old CfgC 2 g c12_SC_IO_WRITE_APPEND in
+   cls = [errclass CfgC e_ESPIPE; errclass CfgC e_ESPIPE] /\ errclass CfgC e_ESPIPE <> SUCCESS CfgC
+   /\ g_ctx g' = false /\ g_s0 g' = None /\ w_ledger (g_w g') = 0 /\ w_open (g_w g') = 1 /\ w_fail (g_w g') = 0)
+  /\ (let '(g', cls) := g_open CfgC 2 g c12_SC_IO_WRITE_APPEND in
+      cls = [SUCCESS CfgC; SUCCESS CfgC] /\ g_s0 g' = Some (mkS MAppend 3) /\ w_open (g_w g') = 1 /\ w_fail (g_w g') = 0).
+Proof. exact open_old_judge_refuted. Qed.
+Print Assumptions C12_open_old_judge_refuted.
+
+(* ---- "success with errno noise" at the OTHER call sites of the unchanged code (findings errno-noise:<site>): witnesses with
+        one noise entry in an otherwise empty plan; no call fails (w_fail = 0).  The statements under plan_ok (no noise) above
+        are the positive halves. *)
+(* errno-noise:at-transfer, errno-noise:at-restore-fseek *)
+Theorem C12_noise_at_refuted :
+  (let '(g', r) := g_at CfgC true (g_noise (plan_noise 0 FWRITE 0 e_EAGAIN) [] MWrite 0) 0 1 (mkA 0 2 [7; 8]) in
+   r_cls r = errclass CfgC e_EAGAIN /\ r_cls r <> SUCCESS CfgC /\ r_ocount r = 2 /\ w_fail (g_w g') = 0 /\ content (g_w g') = [7; 8])
+  /\ (let '(g', r) := g_at CfgA false (g_noise (plan_noise 0 FREAD 0 e_EINTR) [1; 2; 3] MRead 0) 0 1 (mkA 0 2 []) in
+      r_cls r <> SUCCESS CfgA /\ r_ocount r = 2 /\ r_buf r = [1; 2] /\ w_fail (g_w g') = 0)
+  /\ (let '(g', r) := g_at CfgC true (g_noise (plan_noise 0 FSEEK 1 e_ESPIPE) [] MWrite 0) 0 1 (mkA 0 2 [7; 8]) in
+      r_cls r = errclass CfgC e_ESPIPE /\ r_cls r <> SUCCESS CfgC /\ r_ocount r = 2 /\ w_fail (g_w g') = 0 /\ g_s0 g' = Some (mkS MWrite 0)).
+Proof. exact noise_at_witness. Qed.
+Print Assumptions C12_noise_at_refuted.
+(* errno-noise:close-fclose *)
+Theorem C12_noise_close_refuted :
+  g_close CfgC 2 (g_noise (plan_noise 0 FCLOSE 0 e_EINTR) [1] MWrite 0) = None
+  /\ g_close CfgA 1 (g_noise (plan_noise 0 FCLOSE 0 e_EINTR) [1] MWrite 0) = None.
+Proof. exact noise_close_witness. Qed.
+Print Assumptions C12_noise_close_refuted.
+(* errno-noise:coll-fopen (with the stream of rank 1 left open), errno-noise:coll-transfer, errno-noise:coll-reopen *)
+Theorem C12_noise_coll_refuted :
+  let args := [mkA 0 1 [1]; mkA 1 1 [2]; mkA 2 1 [3]] in
+  let g pl := mkG (mkW (File []) pl (fun _ _ => 0) 0 1 0) (Some (mkS MWrite 0)) true in
+  (match g_coll true (g (plan_noise 1 FOPEN 0 e_ESPIPE)) 1 args with
+   | Some (g', rs) => map r_cls rs = [errclass CfgC e_ESPIPE; errclass CfgC e_ESPIPE; errclass CfgC e_ESPIPE]
+                      /\ map r_ocount rs = [1; 0; 0] /\ w_fail (g_w g') = 0 /\ w_open (g_w g') = 2 /\ content (g_w g') = [1]
+   | None => False end)
+  /\ (match g_coll true (g (plan_noise 2 FWRITE 0 e_EAGAIN)) 1 args with
+      | Some (g', rs) => map r_cls rs = [errclass CfgC e_EAGAIN; errclass CfgC e_EAGAIN; errclass CfgC e_EAGAIN]
+                         /\ map r_ocount rs = [1; 1; 1] /\ w_fail (g_w g') = 0 /\ w_open (g_w g') = 1 /\ content (g_w g') = [1; 2; 3]
+      | None => False end)
+  /\ g_coll true (g (plan_noise 0 FOPEN 0 e_ESPIPE)) 1 args = None.
+Proof. exact noise_coll_witness. Qed.
+Print Assumptions C12_noise_coll_refuted.
 
 (* ---- close: same class on all ranks; SUCCESS iff fclose did not fail; every context is freed *)
 Theorem C12_close cfg P g g' cls : 0 < P -> plan_ok (w_plan (g_w g)) ->
@@ -256,7 +308,9 @@ Print Assumptions C12_one_schedule_all_schedules.
        counters, failed calls, open streams);
      - no reachable state is stuck;
      - at every reachable state at most one rank has a stdio call as its next action (mutual exclusion by the token). *)
-Theorem C12_coll_every_schedule wr size args g g' rs : 0 < len args ->
+(* fopen_honest: no fopen of the plan is "success with errno noise" (finding errno-noise:coll-fopen: a rank would take the error
+   path while it holds a stream); every other kind of entry, noise at the other calls included, is admitted *)
+Theorem C12_coll_every_schedule wr size args g g' rs : 0 < len args -> fopen_honest (w_plan (g_w g)) ->
   g_coll wr g size args = Some (g', rs) ->
   let P := len args in
   let start := coll_state wr P size args (g_w g) (g_s0 g) in
@@ -369,7 +423,7 @@ Print Assumptions C12_gen_fallback_modes.
 
 (* sc_io_open, MPI without MPI I/O *)
 Theorem C12_gen_open_C : forall me amode comm fname info fileptr szof mret size_out size_ret rank_ret errno0 fo_errno fo_ret bc_out bc_ret ec_ret,
-  valid_amode amode -> (me = 0 -> bc_out = fo_errno) ->
+  valid_amode amode -> (me = 0 -> bc_out = open_judge (nz fo_ret) fo_errno) ->
   let '(pm_called, pm_arg0, malloc_called, malloc_arg1, csize_called, csize_arg0, crank_called, crank_arg0, fopen_called,
         fopen_arg0, fopen_arg1, bc_called, bc_in0, bc_arg1, bc_arg2, bc_root, bc_comm, ec_called, ec_arg0, free_called, free_arg1,
         ok, hdl, file, ret) :=
@@ -392,11 +446,12 @@ Theorem C12_gen_open_A : forall amode comm fname info fileptr szof mret size_out
         fopen_arg0, fopen_arg1, bc_called, bc_in0, bc_arg1, bc_arg2, bc_root, bc_comm, ec_called, ec_arg0, free_called, free_arg1,
         ok, hdl, file, ret) :=
     sc_io_open_A comm fname amode info fileptr (snd (sc_io_parse_access_mode_A amode 0)) szof mret size_out size_ret 0 rank_ret
-                 errno0 fo_errno fo_ret fo_errno bc_ret (errclass CfgA fo_errno) ec_ret in
+                 errno0 fo_errno fo_ret (open_judge (nz fo_ret) fo_errno) bc_ret (errclass CfgA (open_judge (nz fo_ret) fo_errno)) ec_ret in
   MpiioModel.obs (open_prog CfgA 0 amode kfin) [[b2z (nz fo_ret); fo_errno]]
   = ((if fopen_called =? 1 then [Coll K_FOPEN 0 [mode_code_of_str fopen_arg1]] else []),
      Some [ret; malloc_called - free_called; if free_called =? 1 then 0 else b2z (nz file)])
-  /\ bc_in0 = fo_errno /\ pm_called = 1 /\ pm_arg0 = amode /\ ec_called = 1 /\ ec_arg0 = fo_errno /\ fopen_arg0 = fname
+  /\ bc_in0 = open_judge (nz fo_ret) fo_errno /\ pm_called = 1 /\ pm_arg0 = amode /\ ec_called = 1
+  /\ ec_arg0 = open_judge (nz fo_ret) fo_errno /\ fopen_arg0 = fname
   /\ (free_called = 1 -> free_arg1 = mret /\ hdl = 0) /\ (free_called = 0 -> hdl = mret)
   /\ (ok = 1 <-> size_ret = 0 /\ rank_ret = 0 /\ bc_ret = 0 /\ ec_ret = 0).
 Proof. exact gen_open_A. Qed.
